@@ -396,7 +396,7 @@ pub fn run(ctx: &Ctx) -> i32 {
     }
     acc.finish(
         "exploration",
-        "G-wt multi-module workspaces (6-name identifier pool, qualified and unqualified imports) written to disk with an oal.toml; the real oal-lsp is started on each and asked textDocument/definition and textDocument/references at every UTF-16 position of every line of every module (including one past each line end); answers compared with the generator's span and binding tables converted by an independent UTF-16 line model; lenient zones: the position right after an identifier, qualifier and dot of a qualified use, binder tokens; non-trivial = every workspace; distinct by source hash",
+        "G-wt multi-module workspaces (6-name identifier pool, qualified and unqualified imports) written to disk with an oal.toml; the real oal-lsp is started on each and asked textDocument/definition and textDocument/references at every UTF-16 position of every line of every module (including one past each line end); answers compared with the generator's span and binding tables converted by an independent UTF-16 line model; lenient zones: the position right after an identifier, qualifier and dot of a qualified use, binder tokens; every other session first opens each module with an unsaved draft of another line layout (broken: diagnostics; valid: locations), issues requests in it and closes it without saving; non-trivial = every workspace; distinct by source hash",
         if ctx.quick() { 20 } else { 500 },
         false,
         &["definition targets: the whole declaration for let, the binder token for parameters and rec binders",
